@@ -462,9 +462,12 @@ pub fn search_c01(seed: u64, first: u64, n: u64) -> SearchOut {
     out
 }
 
-pub fn search(prop: &str, seed: u64, first: u64, n: u64, _thorough: bool) -> SearchOut {
+pub fn search(prop: &str, seed: u64, first: u64, n: u64, thorough: bool) -> SearchOut {
     match prop {
         "C01" => search_c01(seed, first, n),
+        "C13" => crate::search2::search_c13(seed, first, n),
+        "C14" => crate::search2::search_c14(seed, first, (n / 40).max(20), thorough),
+        "C17" => crate::search2::search_c17(seed, first, n),
         _ => search_trace(prop, seed, first, n),
     }
 }
@@ -476,6 +479,9 @@ pub fn replay(prop: &str, case: &SearchCase) -> Vec<Finding> {
             run_trace(prop, s, ops).into_iter().map(|(_, f)| f).collect()
         }
         "same-view" | "self-reapply" | "exchange" => check_c01(case).into_iter().collect(),
+        "c14-rounds" => crate::search2::check_c14(case).into_iter().collect(),
+        "c13-inorder" | "c13-random" => crate::search2::check_c13(case).into_iter().collect(),
+        c if c.starts_with("c17-twin") => crate::search2::check_c17(case).into_iter().collect(),
         _ => vec![],
     }
 }
